@@ -36,10 +36,10 @@ package schema
 //@ iface schema.Constraint.EmptyCompletionData (ctx, nextPlaceholder, nestingLevel) (result)
 //@   ensures [C06] implies(hasText(result), result.NextPlaceholder >= nextPlaceholder)
 //@ contract (schema.LiteralValue).EmptyCompletionData (lv, ctx, nextPlaceholder, nestingLevel) (result)
-//@   loop 1 invariant [C06] lastPlaceholder >= nextPlaceholder
-//@   loop 2 invariant [C06] lastPlaceholder >= nextPlaceholder
-//@   loop 3 invariant [C06] lastPlaceholder >= nextPlaceholder
-//@   loop 4 invariant [C06] lastPlaceholder >= nextPlaceholder
+//@   loop 1 invariant [C06,claim] lastPlaceholder >= nextPlaceholder
+//@   loop 2 invariant [C06,claim] lastPlaceholder >= nextPlaceholder
+//@   loop 3 invariant [C06,claim] lastPlaceholder >= nextPlaceholder
+//@   loop 4 invariant [C06,claim] lastPlaceholder >= nextPlaceholder
 //@   assert before (schema.LiteralValue).EmptyCompletionData#1 : [C06] arg2 == lastPlaceholder
 //@   assert before (schema.LiteralValue).EmptyCompletionData#2 : [C06] arg2 == lastPlaceholder
 //@   assert before (schema.LiteralValue).EmptyCompletionData#3 : [C06] arg2 == lastPlaceholder
@@ -50,7 +50,7 @@ package schema
 //@   loop 4 iter [C06] lastPlaceholder == cData.NextPlaceholder
 //@   ensures [C06] implies(hasText(result), result.NextPlaceholder >= nextPlaceholder)
 //@ contract (schema.Tuple).EmptyCompletionData (t, ctx, nextPlaceholder, nestingLevel) (result)
-//@   loop 1 invariant [C06] lastPlaceholder >= nextPlaceholder
+//@   loop 1 invariant [C06,claim] lastPlaceholder >= nextPlaceholder
 //@   assert before invoke:EmptyCompletionData#1 : [C06] arg1 == lastPlaceholder
 //@   loop 1 iter [C06] lastPlaceholder == cData.NextPlaceholder
 //@   ensures [C06] implies(hasText(result), result.NextPlaceholder >= nextPlaceholder)
@@ -72,7 +72,7 @@ package schema
 //@   ensures [C06] implies(hasText(result), result.NextPlaceholder >= nextPlaceholder)
 //@   ensures [C06] implies(len(o) > 0, result.NextPlaceholder == cData.NextPlaceholder)
 //@ contract (schema.Object).attributesCompletionData (o, ctx, placeholder, nestingLevel) (result, ok)
-//@   loop 1 invariant [C06] nextPlaceholder >= placeholder
+//@   loop 1 invariant [C06,claim] nextPlaceholder >= placeholder
 //@   assert before invoke:EmptyCompletionData#1 : [C06] arg1 == nextPlaceholder
 //@   loop 1 iter [C06] nextPlaceholder == old(nextPlaceholder) || nextPlaceholder == attrData.NextPlaceholder
 //@   ensures [C06] implies(ok, result.NextPlaceholder >= placeholder)
